@@ -407,4 +407,7 @@ def run(ctx):
     from rules import share as _share
     _share.share(ctx, rep, "c07", "NI-6", "FM-9")
     flow_common.check_ageing_step(rep, prog, "FM-8")
+    flow_common.check_bmca_step_source(rep, prog, "FM-8")
+    rep.rule("FM-10", "a foreign master record whose last Announce aged out is removed from the list", floor=1)
+    flow_common.check_record_removal(rep, prog, "FM-10")
     flow_common.check_window_interval(rep, prog, "FM-8")
